@@ -20,6 +20,7 @@ F5_KEY = "F5-lockfile-toctou"
 NAMES = ("sock", "lock", "pid", "seed")
 T_START = 10.0      # hard limit for a daemon to reach serving / to exit
 DELAY_US = 1500000  # how long B is held before its F_SETLK in the F5 schedule
+SW_DELAY_US = 4000000  # how long a stopping daemon is held in front of one unlink of its shutdown path
 
 
 # ---------------------------------------------------------------------------------------------- building
@@ -719,6 +720,77 @@ def scen_f5(ctx, lab, model, c_first=False):
             "b_log": b.log()[-300:], "c_log": c.log()[-300:]}
 
 
+def scen_shutdown_window(ctx, lab, model, k):
+    """Stop/start overlap: A is stopped (SIGTERM) under `strace -e inject=unlink:delay_enter` so that it sits for 4 s in front of
+    the k-th unlink of its life - 3: the socket, 4: the lock file, 5: the seed, 6: the pid file, all on the shutdown path; B is
+    started inside that window; A then finishes; C is started.  Whatever the window, at the end exactly one instance is alive and it
+    answers on the socket path (mutual exclusion never lapses between "A released the lock" and "A is gone", and nothing A does on
+    its way out takes the successor's socket away)."""
+    res_corr = []
+    d = lab.newdir("sw%d" % k)
+    a = Daemon(lab, d, "A", inject="unlink:delay_enter=%d:when=%d" % (SW_DELAY_US, k))
+    if not a.wait_serving():
+        CORR(res_corr, "correspondence", "stop/start overlap could be driven on the real binary", False, "A did not reach serving: " + a.log())
+        return {"scenario": "sw%d" % k, "corr": res_corr, "oracle": None, "skipped": "A did not reach serving"}
+    # (the strace log cannot be used to see where A is: strace itself sleeps during the injected delay; munged's own output says
+    #  when the accept loop has been left)
+    t0 = time.time()
+    held = False
+    while time.time() - t0 < 3.0:
+        a.term()
+        time.sleep(0.05)
+        txt = ""
+        for f in (a.out, os.path.join(d, "log")):
+            try:
+                txt += open(f).read()
+            except OSError:
+                pass
+        if "Exiting on signal" in txt:
+            held = True
+            break
+    time.sleep(0.2)                                   # A runs from the signal to its k-th unlink in a few milliseconds
+    t_held = time.time()
+    b = Daemon(lab, d, "B")
+    t = time.time()
+    while time.time() - t < 2.5 and b.alive() and not b.serving():
+        time.sleep(0.005)
+    b_serving = b.serving()
+    in_window = held and a.alive() and time.time() - t_held < SW_DELAY_US / 1e6 * 0.8
+    rca = a.wait_exit(SW_DELAY_US / 1e6 + T_START)
+    time.sleep(0.05)
+    rcb = None if b.alive() else b.proc.returncode
+    c = Daemon(lab, d, "C")
+    t = time.time()
+    while time.time() - t < 1.5 and c.alive() and not c.serving():
+        time.sleep(0.005)
+    time.sleep(0.1)
+    rcc = None if c.alive() else c.proc.returncode
+    alive = [x.tag for x in (a, b, c) if x.alive()]
+    can = lab.ask(d)
+    ident = lab.ident(d)
+    sched = "A serving under `strace -e inject=unlink:delay_enter=%d:when=%d`; SIGTERM to A (held in front of unlink #%d); B started %s; A exits %s; C started" % (
+        SW_DELAY_US, k, k, "and serves" if b_serving else "and exits %s" % rcb, rca)
+    bad = None
+    if in_window:
+        if len(alive) > 1:
+            bad = "%s are both alive on one socket path without --force after a stop/start overlap (window: A held before unlink #%d of its life)" % (" and ".join(alive), k)
+        elif len(alive) == 0:
+            bad = "nobody serves after the overlap (A exit %s, B exit %s, C exit %s): a fresh start was refused although the path was free" % (rca, rcb, rcc)
+        elif not can[0]:
+            bad = "%s is alive and holds the lock but does not answer on the socket path (its socket was removed by the instance that was shutting down): %s" % (alive[0], can[1])
+    else:
+        CORR(res_corr, "correspondence", "stop/start overlap could be driven on the real binary", False,
+             "B was not started inside the window (held=%s, A alive=%s)" % (held, a.alive()))
+    for x in (b, c):
+        x.stop()
+    for x in (a, b, c):
+        x.destroy()
+    ctx.dist("shutdown_window_runs")
+    ctx.distinct("sw-%d" % k)
+    return {"scenario": "sw%d" % k, "corr": res_corr, "schedule": sched, "window_hit": in_window, "alive": alive, "exit": {"A": rca, "B": rcb, "C": rcc},
+            "b_serving": b_serving, "canary": can, "ident": ident, "oracle": bad}
+
+
 # ---------------------------------------------------------------------------------------------- judging
 
 def judge(ctx, res, rerun, what):
@@ -816,6 +888,10 @@ def run(ctx):
         if results:
             ctx.sample("crash: %s" % json.dumps({k: results[0][k] for k in ("pt", "victim_done", "left") if k in results[0]})[:300])
         ctx.log("%d crash points done" % len(sel))
+        for k in (3, 4, 5, 6):
+            r = scen_shutdown_window(ctx, lab, model, k)
+            ctx.sample("stop/start overlap at unlink #%d: alive=%s exit=%s" % (k, r.get("alive"), r.get("exit")))
+            judge(ctx, r, lambda k=k: scen_shutdown_window(ctx, lab, model, k), "one daemon per socket (stop/start overlap)")
         for rep_ in range(1 if not thorough else 3):
             for cf_ in (False, True):
                 r = scen_f5(ctx, lab, model, cf_)
